@@ -84,4 +84,27 @@ example : evalCond .gt (.atom (.int (2^53 + 1))) (.atom (.int (2^53))) = .ok tru
   rw [(order_on_integers_exact (2^53 + 1) (2^53)).2.2.1]
   simp
 
+/-- **C03 (20)** / C17: the uuid of an `insert` is a key of the table. An insert under a uuid that a committed
+    row of the table holds never succeeds, whatever the transaction has done so far (so of two clients that
+    insert under the same uuid, the one that comes second is refused, with an operation error, before anything
+    is notified or committed) -/
+theorem insert_under_committed_uuid_fails (σ : DbModel) (db : Database) (tx : Txn) (op : Operation)
+    (hop : op.op = "insert") (htaken : (get? (db.rows op.table) op.uuid).isSome = true) :
+    ∃ e, execOp σ db tx op = .error e := by
+  unfold execOp
+  simp only [hop, if_true]
+  repeat' split
+  all_goals first | exact ⟨_, rfl⟩ | (rename_i h; exact absurd htaken h)
+
+/-- and when it succeeds the uuid was free -/
+theorem insert_succeeds_only_on_free_uuid (σ : DbModel) (db : Database) (tx tx1 : Txn) (op : Operation)
+    (r : OpResult) (step : List ((String × UUID) × ModelUpdate))
+    (hop : op.op = "insert") (h : execOp σ db tx op = .ok (r, tx1, step)) :
+    get? (db.rows op.table) op.uuid = none := by
+  cases hg : get? (db.rows op.table) op.uuid with
+  | none => rfl
+  | some row =>
+    obtain ⟨e, he⟩ := insert_under_committed_uuid_fails σ db tx op hop (by simp [hg])
+    rw [he] at h; cases h
+
 end Ovsdb.C03
